@@ -169,10 +169,44 @@ class C05:
                       "%s: hash of side %s compared with hash of side %s - identical content is not recognised (the resolver is called for equal files)" % (o.what, show(o.required), show(o.actual)))
 
 
+    def v11(self):
+        rep, ctx = self.rep, self.ctx
+        rep.rule("C05.V11", "the resolver's handle is rewound before EVERY upload/create that sends it: on every path from the function entry, and from any earlier "
+                 "upload/create of the same handle (including the same call on the next loop iteration), `<handle>.seek(0)` precedes the call", expect_min=3)
+        n = 0
+        for qn, hname in (("SyncManager.resolve_conflict", None), ("SyncManager.__resolver_merge_upload", None)):
+            f = ctx.prog.func(qn)
+            if hname is None:
+                hname = local_assigned_from(ctx, f, "self.__safe_call_resolver($$$)", 0) if qn.endswith("resolve_conflict") else f.params()[2]
+            if not hname:
+                raise AnalysisError("%s: resolver handle not identified" % qn)
+            g = ctx.cfg(f)
+            def consumer(nd):
+                r = cfg_root(nd)
+                if r is None:
+                    return False
+                for c_ in ast.walk(r):
+                    if isinstance(c_, ast.Call) and isinstance(c_.func, ast.Attribute) and c_.func.attr in ("upload", "create") and len(c_.args) >= 2 \
+                            and any(isinstance(x, ast.Name) and x.id == hname for x in ast.walk(c_.args[1])):
+                        return True
+                return False
+            cons = [nd for nd in g.nodes if nd.kind in ("stmt", "test") and consumer(nd)]
+            if not cons:
+                raise AnalysisError("%s: no upload/create of the resolver handle found" % qn)
+            seek = lambda nd, h=hname: node_has_call(nd, "%s.seek(0)" % h)   # noqa: E731
+            for c_ in cons:
+                n += 1
+                pth = g.reach([g.entry.id] + [x.id for x in cons], lambda nd, c_=c_: nd is c_, avoid=seek, follow=NORMAL)
+                rep.check("C05.V11", stmt_key(f, c_.ast), ctx.line(f, c_.ast), pth is None, "seek(0) before the upload on every path",
+                          "the handle can reach this upload/create without being rewound (after the resolver or an earlier upload read it): the peer receives truncated / empty content",
+                          witness=describe_path(pth) if pth else None)
+
+
 def run(ctx: Ctx, rep: Report, tier: str):
     c = C05(ctx, rep)
     c.run()
     c.v10()
+    c.v11()
     from rules.common import hash_conflict_definition
     rep.rule("C05.V7", "the resolver is consulted when - and only when - both sides carry different unsynchronised content: hash_conflict() = both sides have "
              "hash and path and both hashes differ from their last-synced value", expect_min=1)
